@@ -298,13 +298,38 @@ pub fn tiles(bin: &str, input: &str, output: &str, dir: &str) -> Value {
 			let (zmin, zmax) = (tl.iter().map(|t| t.0).min().unwrap(), tl.iter().map(|t| t.0).max().unwrap());
 			let target = format!("/tiles/{}/tiles.json", pct(src["src"]["sid"].as_str().unwrap_or(id)));
 			let mut ev = json!({"ev":"tilesjson","id":0,"target":target,"q":{"src":src["src"],"flags":flags},"cov_minzoom":zmin,"cov_maxzoom":zmax,
-				"resp":{"status":-1},"valid":0,"template":"","minzoom":-1,"maxzoom":-1,"bounds_e6":[],"attribution":"","format":"","ctype":""});
+				"resp":{"status":-1},"valid":0,"template":"","template_segs":[],"minzoom":-1,"maxzoom":-1,"bounds_e6":[],"attribution":"","format":"","ctype":""});
 			if let Some(r) = client.get(&target, &[("Accept-Encoding", "gzip")]) {
 				ev["resp"] = json!({"status": r.status});
 				ev["ctype"] = json!(r.headers.get("content-type").cloned().unwrap_or_default());
 				if let Some(Ok(Value::Object(o))) = decode_body(&r).map(|b| serde_json::from_slice::<Value>(&b)) {
 					ev["valid"] = json!(1);
-					ev["template"] = json!(o.get("tiles").and_then(|t| t.as_array()).and_then(|a| a.first()).and_then(|t| t.as_str()).unwrap_or(""));
+					let tpl = o.get("tiles").and_then(|t| t.as_array()).and_then(|a| a.first()).and_then(|t| t.as_str()).unwrap_or("").to_string();
+					ev["template"] = json!(tpl);
+					// the path segments of the template (scheme://host dropped, percent-decoded, "{y}.ext" read as "{y}")
+					let path = match tpl.find("://") {
+						Some(i) => tpl[i + 3..].find('/').map(|j| tpl[i + 3 + j..].to_string()).unwrap_or_default(),
+						None => tpl.clone(),
+					};
+					let segs: Vec<String> = path.split('/').filter(|x| !x.is_empty()).map(|x| {
+						let mut out = vec![];
+						let b = x.as_bytes();
+						let mut k = 0;
+						while k < b.len() {
+							if b[k] == b'%' && k + 2 < b.len() && x.is_char_boundary(k + 1) && x.is_char_boundary(k + 3) {
+								if let Ok(v) = u8::from_str_radix(&x[k + 1..k + 3], 16) {
+									out.push(v);
+									k += 3;
+									continue;
+								}
+							}
+							out.push(b[k]);
+							k += 1;
+						}
+						let d = String::from_utf8_lossy(&out).to_string();
+						if d.starts_with("{y}") { "{y}".to_string() } else { d }
+					}).collect();
+					ev["template_segs"] = json!(segs);
 					ev["minzoom"] = json!(o.get("minzoom").and_then(|v| v.as_i64()).unwrap_or(-1));
 					ev["maxzoom"] = json!(o.get("maxzoom").and_then(|v| v.as_i64()).unwrap_or(-1));
 					ev["format"] = json!(o.get("format").and_then(|v| v.as_str()).unwrap_or(""));
